@@ -510,6 +510,109 @@ def s_depth(F, res):
 _KEEP = []
 
 
+NONE_KEEPING = ("filter", "map", "and_then", "as_ref", "as_deref", "cloned", "copied", "as_mut", "inspect", "zip", "xor_none", "flatten")
+
+
+def s_typegate(F, res):
+    """S-TYPEGATE: a validator of the analyzer that admits an expression by its `target_type()` does not admit one that has no
+    type.  For every function of tx3_lang::analyzing that returns `Result<(), _>` and asks an expression for its target type:
+    under the assumption that the answer is `None`, no path reaches `Ok(..)`.  Decided by walking the function's paths with the
+    variant of every Option / Result local that derives from that answer tracked (`filter`, `map`, `and_then`, `as_ref` .. keep
+    `None`; `ok_or` / `ok_or_else` turn it into `Err`; `unwrap_or*` ends the tracking; a switch on a tracked local takes only
+    the known edge).  An untyped identifier (a type, alias, asset or function name) that gets through here is lowered later,
+    where nothing can be done with it."""
+    n = 0
+    for p in sorted(F.fns):
+        f = F.fns[p]
+        if f["crate"] != "tx3_lang" or not p.startswith("tx3_lang::analyzing::") or f.get("derived") or f["def_kind"] == "Closure":
+            continue
+        if not f["locals"] or not f["locals"][0].startswith("std::result::Result<(),"):
+            continue
+        asks = [(bi, t) for bi, t in mir.calls(f) if (t.get("callee") or "").split("::")[-1] == "target_type" or (t.get("resolved") or "").endswith("::target_type")]
+        if not asks:
+            continue
+        n += 1
+        blocks = f["blocks"]
+        bad = None
+        for ab, at in asks:
+            # state: local -> "None" | "Err" (a tracked local known to be in that variant)
+            seen = set()
+            stack = [(at["t"], frozenset({(at["dest"]["l"], "None")}))] if at.get("t") is not None else []
+            while stack and bad is None:
+                bi, st = stack.pop()
+                if (bi, st) in seen or blocks[bi]["cleanup"]:
+                    continue
+                seen.add((bi, st))
+                state = dict(st)
+                b = blocks[bi]
+                ret_ok = None
+                for s_ in b["s"]:
+                    lhs = s_["lhs"]
+                    rv = s_["rv"]
+                    if lhs["p"]:
+                        continue
+                    state.pop(lhs["l"], None)
+                    if rv["k"] in ("use", "cast"):
+                        pl = mir.op_place(rv["op"])
+                        if pl is not None and not [q for q in pl["p"] if q[0] != "d"] and pl["l"] in state:
+                            state[lhs["l"]] = state[pl["l"]]
+                    elif rv["k"] == "ref" and not [q for q in rv["pl"]["p"] if q[0] != "d"] and rv["pl"]["l"] in state:
+                        state[lhs["l"]] = state[rv["pl"]["l"]]
+                    elif rv["k"] == "discr" and not [q for q in rv["pl"]["p"] if q[0] != "d"] and rv["pl"]["l"] in state:
+                        state[("discr", lhs["l"])] = (state[rv["pl"]["l"]], rv.get("adt", ""))
+                    elif rv["k"] == "agg" and lhs["l"] == 0 and rv.get("adt", "").endswith("::Result"):
+                        ret_ok = rv.get("variant") == "Ok"
+                        state[("ret",)] = "Ok" if ret_ok else "Err"
+                    elif rv["k"] == "agg" and (rv.get("adt", "").endswith("::Option") or rv.get("adt", "").endswith("::Result")) and rv.get("variant") in ("None", "Some", "Ok", "Err"):
+                        # a value built on this path with a known variant (`None => Some("unresolved identifier")`)
+                        state[lhs["l"]] = rv["variant"]
+                t = b["t"]
+                k = t["k"]
+                if k == "return":
+                    if state.get(("ret",)) == "Ok" or (state.get(0) is None and state.get(("ret",)) is None and False):
+                        bad = (ab, at)
+                    continue
+                if k == "call":
+                    name = (t.get("callee") or "").split("::")[-1]
+                    d = t["dest"]
+                    a0 = mir.op_place(t["args"][0]) if t["args"] else None
+                    src = state.get(a0["l"]) if a0 is not None and not [q for q in a0["p"] if q[0] != "d"] else None
+                    if not d["p"]:
+                        state.pop(d["l"], None)
+                        if src == "None" and name in NONE_KEEPING and "Option" in (t.get("callee") or ""):
+                            state[d["l"]] = "None"
+                        elif src == "None" and name in ("ok_or", "ok_or_else"):
+                            state[d["l"]] = "Err"
+                        elif src == "Err" and name in ("map", "and_then", "as_ref") and "Result" in (t.get("callee") or ""):
+                            state[d["l"]] = "Err"
+                        elif src in ("None", "Err") and name == "branch":
+                            state[d["l"]] = "Break"
+                        elif d["l"] == 0 and name == "from_residual":
+                            state[("ret",)] = "Err"
+                    if t.get("t") is not None:
+                        stack.append((t["t"], frozenset((kk, vv) for kk, vv in state.items() if not isinstance(vv, tuple)) | frozenset((kk, vv) for kk, vv in state.items() if isinstance(vv, tuple))))
+                    continue
+                if k == "switch":
+                    pl = mir.op_place(t["discr"])
+                    known = state.get(("discr", pl["l"])) if pl is not None else None
+                    if known is not None:
+                        var, adt = known
+                        idx = {"None": 0, "Some": 1, "Ok": 0, "Err": 1, "Continue": 0, "Break": 1}.get(var)
+                        tm = dict((a, b2) for a, b2 in t["targets"])
+                        nxt = tm.get(idx, t["otherwise"])
+                        if nxt is not None:
+                            stack.append((nxt, frozenset(state.items())))
+                        continue
+                for nb in mir.block_succs(b):
+                    stack.append((nb, frozenset(state.items())))
+        key = "%s|an expression without a target type is not admitted" % p
+        if bad is not None:
+            res.add([finding("S-TYPEGATE", key, where(f, bad[1]["line"]), "the validator returns Ok(..) on a path where `target_type()` answered None: an identifier that resolves to something without a type (a type or alias name, an asset, a built-in function) is accepted by the analyzer and reaches the lowering, which has no case for it")])
+        else:
+            res.add([ok("S-TYPEGATE", key, where(f), "with `target_type()` = None every path ends in Err(..)")])
+    res.count("type-gated validators", n)
+
+
 def run(ctx):
     F = ctx.F
     res = Result("C13")
@@ -522,4 +625,6 @@ def run(ctx):
     t1_analyze(F, res)
     s_depth(F, res)
     facade(F, res)
+    res.rule("S-TYPEGATE", "a validator that admits an expression by its target type rejects one that has none")
+    s_typegate(F, res)
     return res
